@@ -17,7 +17,8 @@ arr_real awgn(const arr_real& arr, real_t snr) {
 
 //-------------------------------------------------------------------------------------------------
 arr_cmplx awgn(const arr_cmplx& arr, real_t snr) {
-    real_t stddev = 0.5 * rms(arr) * std::pow(10, ((-1) * snr / 20));
+    //the requested noise power is shared equally by the real and the imaginary component
+    real_t stddev = rms(arr) * std::pow(10, ((-1) * snr / 20)) / std::sqrt(real_t(2));
     arr_cmplx r(arr);
     r += complex(randn(r.size()) * stddev, randn(r.size()) * stddev);
     return r;
